@@ -1,5 +1,5 @@
 CONSTANTS JCs = {1} Horizon = 7 Ids = {1,2} Windows <- W1 MaxMissed = 2 MaxDown = 3 MaxOps = 3 MaxLag = 1 MaxFaults = 0 MaxRestarts = 1 MaxTick = 3
-  Pols = {"Allow"} PreBoot = TRUE WithRecon = FALSE Workers = {1}
+  Pols = {"Allow"} PreBoot = TRUE WithRecon = FALSE Workers = {1} Relists = FALSE
 SPECIFICATION Spec
 INVARIANTS TypeOK
 PROPERTIES C01_C03_C04_Pass C04_BootHeap
